@@ -257,6 +257,7 @@ val take : nat -> bytes -> (bytes * bytes) option
 
 type frame_res =
 | FEof
+| FTorn
 | FFail
 | FRec of bool * n * bytes * bytes
 
@@ -293,9 +294,11 @@ val l_add_deps : lstate -> n -> z -> n list -> n -> lstate
 
 val needs_recompaction : n -> n -> bool
 
-val load_loop : bool -> nat -> lstate -> bytes -> dload
+val load_loop : bool -> bool -> nat -> lstate -> bytes -> dload
 
 val l_init : lstate
+
+val load_deps_ver : bool -> bool -> bytes -> dload
 
 val load_deps_gen : bool -> bytes -> dload
 
@@ -331,6 +334,9 @@ type recompact_res =
 val recompact_ops : (bytes -> bool) -> dstate -> n list -> dop list option
 
 val recompact_r : (bytes -> bool) -> dstate -> recompact_res
+
+val session_ver :
+  bool -> bool -> (bytes -> bool) -> bytes -> dop list -> bytes
 
 val session_gen : bool -> (bytes -> bool) -> bytes -> dop list -> bytes
 
